@@ -318,7 +318,7 @@ class C20(Check):
               'free_probes': 50000, 'thread_reps': 300,
               'thread_requests_while_busy': 500, 'proc_rounds': 8,
               'proc_found_busy': 200, 'bodies_raised': 1000}
-    time_cap = {'quick': 90.0, 'thorough': 900.0}
+    time_cap = {'quick': 150.0, 'thorough': 1500.0}
 
     def cases(self, tier: str, seed: int) -> Iterable[dict[str, Any]]:
         quick = tier == 'quick'
@@ -344,8 +344,8 @@ class C20(Check):
         # 2. sweeps with back-to-back external events
         for t in small + (four if quick else []):
             add(mode='sweep', impl='asyncio', tasks=t, gaps=GAPS_ALL,
-                cancel=None, bound=bound if not quick else 6000,
-                nrand=1500 if quick else 5000)
+                cancel=None, bound=bound if not quick else 4000,
+                nrand=1000 if quick else 5000)
         if not quick:
             for t in rng.sample(four, 40):
                 add(mode='sweep', impl='asyncio', tasks=t, gaps=GAPS_Q,
@@ -353,7 +353,7 @@ class C20(Check):
         # 3. decorated variants (longer sections, yields between, raising)
         for t in (small if quick else small * 6):
             add(mode='sweep', impl='asyncio', tasks=decorate(rng, t),
-                gaps=GAPS_Q, cancel=None, bound=bound if not quick else 5000,
+                gaps=GAPS_Q, cancel=None, bound=bound if not quick else 4000,
                 nrand=1000)
         # 4. cancellation: every (task, step) of the chosen programs
         canc = [t for t in small if len(t) == 2 or
@@ -365,15 +365,15 @@ class C20(Check):
         for t in canc:
             for cp in cancel_points(t):
                 add(mode='sweep', impl='asyncio', tasks=t, gaps=GAPS_ALL,
-                    cancel=cp, bound=3000 if quick else bound,
-                    nrand=300 if quick else 3000)
+                    cancel=cp, bound=2000 if quick else 12000,
+                    nrand=200 if quick else 2000)
         # 5. larger programs, random schedules, random cancellation
-        for _ in range(160 if quick else 4000):
+        for _ in range(160 if quick else 3000):
             add(mode='random', impl='asyncio',
                 tasks=random_program(rng, rng.choice([3, 4, 4]), 3),
                 gaps=rng.choice([GAPS_Q, GAPS_ALL]),
                 cancel=rng.choice([None, 'random']),
-                nrand=600 if quick else 1500)
+                nrand=500 if quick else 1500)
         # 6. FileLock inside one loop (virtual-time retries)
         fsmall = [t for t in small if len(t) == 2 or
                   all(len(x) == 1 for x in t)]
